@@ -31,6 +31,7 @@ theorem Split3.nodup12 {p : Nat} {xs ys zs : List Nat} (h : Split3 p xs ys zs) :
   · intro a ha b hb e; subst e; exact h.xy a ha hb
 
 theorem casesCons_ok (live : Bool) (p : Nat) (d : Bool) (t : Kids) (body : Stmts) (r : Cases) (a : A)
+    (hpt : t.pure = true)
     (hpre : Pre live (Cases.cons p d t body r).positions a)
     (ihk : ∀ x, PreK t.positions x → PostK t.upos t.positions t.inner t.mayThrow x (visitKids t x))
     (ihb : ∀ a0, Pre live body.positions a0 → PostL live body.upos body.positions body.compl body.reach body.inner a0 (visitStmts body a0))
@@ -88,7 +89,7 @@ theorem casesCons_ok (live : Bool) (p : Nat) (d : Bool) (t : Kids) (body : Stmts
       revert h hc; cases live <;> cases t.mayThrow <;> cases body.compl.t <;> simp
   · intro q hq hu
     simp only [Cases.upos, List.mem_append] at hq
-    simp only [Cases.reach]
+    simp only [Cases.reach, Kids.flowReach_pure t q hpt, Bool.or_false]
     rcases hq with hq | hq | hq
     · simp [(htu q hq).1, body.reach_false q (htu q hq).2.1, reach_false r q (htu q hq).2.2]
     · rw [ur_eq_of_info_eq (h2.frame q (hbu q hq).2.2)] at hu
